@@ -379,6 +379,12 @@ template<typename K> void run_task(Run &run, Cn &cn, int prop, const Task &t) {
             if (w == t.w_lo + 9) run.sample(ck.case_of("family=" + s.str(), t.eps, "par"));
             ck.family(s, t.eps, w % 16 == 0);
         }
+    } else if (t.kind == 3) {
+        for (long so : {-2L, -1L, 0L, 1L}) for (long eo : {-3L, -2L, -1L, 0L, 1L}) {
+            if (run.deadline_passed()) break;
+            ks::FamilySpec s; s.kind = "longrun"; s.n = t.n; s.chunks = t.p; s.seam = t.seam; s.rep = t.rep; s.width = so; s.word = eo;
+            ck.family(s, t.eps, 0);
+        }
     } else {
         for (long b0 = t.b_lo; b0 < t.b_hi; ++b0) {
             if (!ks::block_id_canonical(b0)) continue;
@@ -451,6 +457,12 @@ int main(int argc, char **argv) {
                 for (long p : ps) for (long d : (thorough ? std::vector<long>{0, 1, 7} : std::vector<long>{0}))
                     for (long w = 0; w < 4096; w += 64) { Task t; t.key = k; t.kind = 1; t.eps = e; t.n = 32768 + d; t.p = p; t.seam = 0; t.w_lo = w; t.w_hi = w + 64; tasks.push_back(t); }
             }
+            // long duplicate runs from around a chunk start to around a chunk end (kind 3)
+            for (long pp : (thorough ? std::vector<long>{2, 3, 5, 20} : std::vector<long>{2, 20}))
+                for (long j = 0; j < pp; ++j) {
+                    if (pp == 20 && !thorough && j > 2 && j < 17) continue;
+                    for (long len : {1L, 2L}) { if (j + len > pp) continue; Task t; t.key = k; t.kind = 3; t.eps = 1; t.n = 32768; t.p = pp; t.seam = j; t.rep = len; tasks.push_back(t); }
+                }
             // below the chunking threshold the builder must stay sequential whatever the thread count
             for (long nn : {32767L, 20000L, 8192L, 4096L}) for (long p : {2L, 4L, 15L, 20L})
                 for (long w = 0; w < 4096; w += 1024) { Task t; t.key = k; t.kind = 1; t.eps = 1; t.n = nn; t.p = p; t.seam = 0; t.w_lo = w + 77; t.w_hi = w + (thorough ? 93 : 81); tasks.push_back(t); }
